@@ -58,21 +58,29 @@ func genHistory(rt *rapid.T, o hgenOpts) history {
 			if disped[s] && !(o.Strays && rapid.IntRange(0, 3).Draw(rt, "late") == 0) {
 				continue
 			}
-			ops = append(ops, hop{K: "ev", S: s, T: pick(rt, "t", evTypeNames)})
+			ops = append(ops, hop{K: "ev", S: s, T: pick(rt, "t", evTypeNames), P: evPid(rt, s, nS)})
 		case k < 82: // disp
 			if !opened[s] || disped[s] {
 				continue
 			}
 			disped[s] = true
-			ops = append(ops, hop{K: "disp", S: s})
+			ops = append(ops, hop{K: "disp", S: s, P: s})
 		case k < 92: // noise
 			if !o.Orphans {
 				continue
 			}
-			t := pick(rt, "nt", []string{"nosession", "unset", "unknown_ses"})
+			t := pick(rt, "nt", []string{"nosession", "unset", "unknown_ses", "login_unset", "login_nosession"})
 			h := hop{K: "noise", T: t}
 			if t == "unknown_ses" {
 				h.S = 90 + rapid.IntRange(0, 3).Draw(rt, "us")
+				// records of a session whose LOGIN record was never seen still
+				// carry the pid of their sshd process, which may have a login waiting
+				h.P = rapid.IntRange(0, nS+1).Draw(rt, "upid")
+			}
+			if t == "login_unset" || t == "login_nosession" {
+				// a LOGIN record that carries no usable session id, from a pid that
+				// may well be the pid of an ssh login (waiting or still to come)
+				h.P = rapid.IntRange(1, nS+1).Draw(rt, "np")
 			}
 			ops = append(ops, h)
 		default: // cleanup
@@ -95,6 +103,19 @@ func genHistory(rt *rapid.T, o hgenOpts) history {
 		}
 	}
 	return history{Ops: ops}
+}
+
+// evPid: the pid an event of session s carries — mostly that of the session's
+// sshd process (PAM records), sometimes a child's or another session's sshd.
+func evPid(rt *rapid.T, s, nS int) int {
+	switch rapid.IntRange(0, 5).Draw(rt, "evpid") {
+	case 0:
+		return 0 // some other process (a child)
+	case 1:
+		return rapid.IntRange(1, nS+1).Draw(rt, "evpidother")
+	default:
+		return s
+	}
 }
 
 // interleave merges sequences preserving each one's internal order.
@@ -129,9 +150,9 @@ func genReuseHistory(rt *rapid.T) history {
 		// phase 1: records of s1 in kernel order, login1 at any position
 		rec1 := []hop{{K: "open", S: s1, P: p}}
 		for k := rapid.IntRange(0, 3).Draw(rt, "n1"); k > 0; k-- {
-			rec1 = append(rec1, hop{K: "ev", S: s1, T: pick(rt, "t1", evTypeNames)})
+			rec1 = append(rec1, hop{K: "ev", S: s1, T: pick(rt, "t1", evTypeNames), P: p})
 		}
-		rec1 = append(rec1, hop{K: "disp", S: s1})
+		rec1 = append(rec1, hop{K: "disp", S: s1, P: p})
 		pos := rapid.IntRange(0, len(rec1)).Draw(rt, "login1pos")
 		if rapid.IntRange(0, 2).Draw(rt, "late1") == 0 {
 			pos = len(rec1) // all records precede the login line (short session)
@@ -140,14 +161,14 @@ func genReuseHistory(rt *rapid.T) history {
 		// phase 2: reuse
 		rec2 := []hop{{K: "open", S: s2, P: p}}
 		for k := rapid.IntRange(1, 3).Draw(rt, "n2"); k > 0; k-- {
-			rec2 = append(rec2, hop{K: "ev", S: s2, T: pick(rt, "t2", evTypeNames)})
+			rec2 = append(rec2, hop{K: "ev", S: s2, T: pick(rt, "t2", evTypeNames), P: p})
 		}
 		if rapid.Bool().Draw(rt, "disp2") {
-			rec2 = append(rec2, hop{K: "disp", S: s2})
+			rec2 = append(rec2, hop{K: "disp", S: s2, P: p})
 		}
 		var strays []hop
 		for k := rapid.IntRange(0, 2).Draw(rt, "nstray"); k > 0; k-- {
-			strays = append(strays, hop{K: "ev", S: s1, T: pick(rt, "ts", evTypeNames)})
+			strays = append(strays, hop{K: "ev", S: s1, T: pick(rt, "ts", evTypeNames), P: p})
 		}
 		phase2 := interleave(rt, "il2", rec2, []hop{{K: "login", P: p}}, strays)
 		chains = append(chains, append(phase1, phase2...))
@@ -222,20 +243,23 @@ func enumHistories(o enumOpts, shardI, shardN int, yield func(history) bool) {
 				}
 			}
 			if (s.opened&bit != 0 && s.disped&bit == 0) || o.Early {
-				if !try(hop{K: "ev", S: i, T: "USER_START"}, s) {
+				if !try(hop{K: "ev", S: i, T: "USER_START", P: i}, s) {
 					return false
 				}
 			}
 			if s.opened&bit != 0 && s.disped&bit == 0 {
 				ns := s
 				ns.disped |= bit
-				if !try(hop{K: "disp", S: i}, ns) {
+				if !try(hop{K: "disp", S: i, P: i}, ns) {
 					return false
 				}
 			}
 		}
 		if o.Noise {
 			if !try(hop{K: "noise", T: "unset"}, s) {
+				return false
+			}
+			if !try(hop{K: "noise", T: "login_unset", P: 1}, s) {
 				return false
 			}
 		}
